@@ -28,7 +28,7 @@ fn add_key(map: &mut PublicKeyMap, entity: &str, kp: &Ed25519KeyPair) {
 }
 
 fn fail(v: &mut Vec<Value>, x: Value) {
-    if v.len() < 3 {
+    if v.len() < 50 {
         v.push(x);
     }
 }
